@@ -18,6 +18,8 @@ _EXC_TREE = [
     ("AssertionError", "Exception"), ("StopIteration", "Exception"), ("ImportError", "Exception"),
     ("ModuleNotFoundError", "ImportError"), ("OSError", "Exception"), ("FileNotFoundError", "OSError"),
     ("UnicodeError", "ValueError"), ("Warning", "Exception"), ("DeprecationWarning", "Warning"), ("UserWarning", "Warning"),
+    ("RuntimeWarning", "Warning"), ("FutureWarning", "Warning"), ("PendingDeprecationWarning", "Warning"), ("SyntaxWarning", "Warning"), ("ImportWarning", "Warning"),
+    ("UnicodeWarning", "Warning"), ("BytesWarning", "Warning"), ("ResourceWarning", "Warning"), ("EncodingWarning", "Warning"),
     ("EOFError", "Exception"), ("MemoryError", "Exception"), ("BufferError", "Exception"),
 ]
 
